@@ -131,6 +131,8 @@ impl Iface {
         let mut out = vec![];
         for it in &self.items {
             match it {
+                // a named borrow handle is only usable as a parameter: not offered to `use`
+                Item::Type { def: TypeDef::Alias(Ty::Borrow(_)), .. } => {}
                 Item::Type { name, .. } => out.push((name.clone(), false)),
                 Item::Resource { name, .. } => out.push((name.clone(), true)),
                 _ => {}
@@ -373,6 +375,8 @@ fn pick(raw: u16, len: usize) -> usize {
 struct Scope {
     values: Vec<String>,
     resources: Vec<String>,
+    /// names of `type h = borrow<r>` aliases (only usable as function parameters)
+    borrow_aliases: Vec<String>,
 }
 
 fn build_ty(s: &TySpec, sc: &Scope, allow_own: bool) -> Ty {
@@ -477,6 +481,15 @@ pub fn build_iface(name: &str, tag: &str, spec: &IfaceSpec, earlier: &[((usize, 
             ItemSpec::Alias(t) => {
                 let name = format!("als{tag}x{k}");
                 taken.insert(name.clone());
+                // every other alias of a resource handle is a named borrow handle
+                if let (TySpec::Own(i), false) = (t, sc.resources.is_empty()) {
+                    if i % 2 == 1 {
+                        let r = sc.resources[pick(*i, sc.resources.len())].clone();
+                        items.push(Item::Type { name: name.clone(), def: TypeDef::Alias(Ty::Borrow(r)) });
+                        sc.borrow_aliases.push(name);
+                        continue;
+                    }
+                }
                 items.push(Item::Type { name: name.clone(), def: TypeDef::Alias(build_ty(t, &sc, true)) });
                 sc.values.push(name);
             }
@@ -501,7 +514,9 @@ pub fn build_iface(name: &str, tag: &str, spec: &IfaceSpec, earlier: &[((usize, 
             ItemSpec::Func { params, result, borrow_first } => {
                 let name = format!("fn{tag}x{k}");
                 let mut ps: Vec<(String, Ty)> = params.iter().enumerate().map(|(j, t)| (format!("p{j}"), build_ty(t, &sc, true))).collect();
-                if *borrow_first && !sc.resources.is_empty() {
+                if *borrow_first && !sc.borrow_aliases.is_empty() && k % 2 == 1 {
+                    ps.insert(0, ("pb".to_string(), Ty::Named(sc.borrow_aliases[0].clone())));
+                } else if *borrow_first && !sc.resources.is_empty() {
                     ps.insert(0, ("pb".to_string(), Ty::Borrow(sc.resources[0].clone())));
                 }
                 items.push(Item::Func { name, sig: FuncSig { params: ps, result: result.as_ref().map(|t| build_ty(t, &sc, true)) } });
